@@ -75,4 +75,19 @@ def stochasticRank (scores : List Score) (cfg run : Option Int) (weights : List 
     let ks := keys logu weights eps
     (LK.TopN.argtopn (ks.map some) (n : Int)).filterMap (fun j => eligible[j]?)
 
+/-- the scores as the ranker sees them: a raw value per item and whether it is finite -/
+def scoresOf (raw : List Q) (finite : List Bool) : List Score := List.zipWith (fun q v => if v then Score.fin q else Score.nan) raw finite
+
+/-- a finite score times the scale; nothing for the others -/
+def finScaled (scale : Q) : Score → Option Q
+  | .fin q => some (q * scale)
+  | _ => none
+
+/-- `StochasticTopNRanker.__call__` for the `linear` / identity transforms, from the raw scores: the finite scores times the configured
+    scale are what the transform starts from -/
+def stochasticCall (linear : Bool) (raw : List Q) (finite : List Bool) (scale : Q) (cfg run : Option Int) (logu : List Q) (eps : Q) : List Nat :=
+  let scaled := (scoresOf raw finite).filterMap (finScaled scale)
+  let weights := if linear then linearWeights scaled else scaled
+  stochasticRank (scoresOf raw finite) cfg run weights logu eps
+
 end LK.Stoch
